@@ -66,9 +66,10 @@ def tie(ctx):
         exp = open(os.path.join(d, 'expected.txt')).read().split('\n')
         got = open(os.path.join(d, 'got.txt')).read().split('\n')
         ops = open(os.path.join(d, 'ops.txt')).read().split('\n')
-        idx = json.load(open(os.path.join(d, 'index.json')))['index']
+        ixj = json.load(open(os.path.join(d, 'index.json')))
+        idx = ixj['index']
         fd = fw.first_diff(exp, got)
-        res = dict(name=name, lines=len(exp) - 1, hist=len(idx), diff=None,
+        res = dict(name=name, lines=len(exp) - 1, hist=len(idx), diff=None, viol=ixj.get('viol', []),
                    nontriv={hash('\n'.join(ops[e['start']:e['start'] + e['n']])) for e in idx if e['rot'] > 0 and e['two'] > 0},
                    rot=sum(e['rot'] for e in idx), two=sum(e['two'] for e in idx),
                    keyerr=exp.count('KeyError'), emptydraw=exp.count('ValueError'), exc=sum(1 for l in exp if l.startswith('EXC')),
@@ -98,10 +99,11 @@ def tie(ctx):
         raise RuntimeError(f"model driver failed: {errs[0]['detail']}")
     if errs:
         return dict(ok=False, stats=stats, fail=dict(what=f"harness could not drive the real code ({errs[0]['name']})", detail=errs[0]['detail'], history=None))
+    viol = [dict(replay=dict(history=None, note=v), reason=v, signature='drawset:constructor') for r in good for v in r.get('viol', [])][:1]
     diffs = [r['diff'] for r in good if r['diff']]
     if diffs:
-        return dict(ok=False, stats=stats, fail=diffs[0])
-    return dict(ok=True, stats=stats)
+        return dict(ok=False, stats=stats, violations=viol, fail=diffs[0])
+    return dict(ok=True, stats=stats, violations=viol)
 
 
 def _oracle(ctx, hists, budget):
